@@ -239,6 +239,9 @@ func c10lookup(p *Prog, r *Report) {
 				for b := range l.body {
 					if b != l.head && b.Dominates(rp.ret.Block()) {
 						inLoop = true
+						if lp == nil || len(l.body) < len(lp.body) {
+							lp = l
+						}
 					}
 				}
 			}
@@ -301,8 +304,47 @@ func c10lookup(p *Prog, r *Report) {
 		}
 		ok1, _ := p.holdsAtRet(rp, []Pred{qLow}, all(1))
 		ok2, _ := p.holdsAtRet(rp, []Pred{qHigh}, all(1))
-		r.Check(ok1 && ok2 && retIdx != nil, rule, "PeerSetCache.Get:interval", p.ipos(rp.ret), fnName(get), "returns peerSets[rounds[i]] only if rounds[i] <= round < rounds[i+1]",
-			fmt.Sprintf("interval test broken: round>=rounds[i]:%v round<rounds[i+1]:%v returns-entry-i:%v", ok1, ok2, retIdx != nil))
+		if ok1 && !ok2 && retIdx != nil {
+			// the other exact form: a scan from the TOP of the sorted list that returns the first
+			// entry with rounds[i] <= round — every entry above i was passed over only because
+			// round < rounds[j]
+			if ph, isPhi := retIdx.(*ssa.Phi); isPhi && lp != nil && ph.Block() == lp.head && len(ph.Edges) == 2 {
+				down, top := false, false
+				for k, e := range ph.Edges {
+					bo, isB := e.(*ssa.BinOp)
+					if !isB {
+						continue
+					}
+					c, okc := intConst(bo.Y)
+					if !okc {
+						continue
+					}
+					if (bo.Op == token.SUB && c == 1 || bo.Op == token.ADD && c == -1) && bo.X == ssa.Value(ph) {
+						// the step: the loop is continued only after round < rounds[i]
+						qNotLow := func(l Lit) bool {
+							a, b, strict, ok := cmpLit(l) // a > b  /  a >= b
+							if !ok || !strict || unwrap(b) != round {
+								return false
+							}
+							i, ok := idxOf(a)
+							return ok && i == retIdx
+						}
+						latch := lp.head.Preds[k]
+						g, _ := p.allPathsEdge(latch, lp.head, []Pred{qNotLow}, all(1))
+						down = g
+					} else if bo.Op == token.SUB && c == 1 {
+						if x, isLen := isLenOf(bo.X); isLen {
+							if fv, _ := fieldOf(x); fv == fRounds {
+								top = true
+							}
+						}
+					}
+				}
+				ok2 = down && top
+			}
+		}
+		r.Check(ok1 && ok2 && retIdx != nil, rule, "PeerSetCache.Get:interval", p.ipos(rp.ret), fnName(get), "returns peerSets[rounds[i]] only if rounds[i] <= round < rounds[i+1] (interval test, or first hit of a scan from the top)",
+			fmt.Sprintf("interval test broken: round>=rounds[i]:%v round<rounds[i+1] (or downward first-hit scan):%v returns-entry-i:%v", ok1, ok2, retIdx != nil))
 	}
 	if nLoopRet == 0 {
 		r.Fail(rule, "PeerSetCache.Get:interval", p.pos(get.Pos()), fnName(get), "no interval search found in PeerSetCache.Get")
